@@ -210,3 +210,21 @@ func (e *Exec) checkWgOrder(st *State, fr *Frame, site ssa.Instruction, wg *Term
 		e.curTags = save
 	}
 }
+
+// ---- call guards ------------------------------------------------------------------------------
+// checkCallGuards: GUARD obligation at a call of a guarded external function
+func (e *Exec) checkCallGuards(st *State, fr *Frame, site ssa.Instruction, name string) {
+	for _, cg := range e.db.callguards {
+		if !cg.Names[name] {
+			continue
+		}
+		ctx := e.newSpecCtx(st, e.P.tpkgs[pkgGldap], st.frames[0].entry)
+		g := ctx.evalBool(cg.Expr)
+		save := e.curTags
+		e.curTags = cg.Tags
+		e.noAssume = true
+		e.check(st, fr, "GUARD", site, "callguard "+cg.Text+" at call of "+name+" | "+e.P.srcLine(site.Pos()), g)
+		e.noAssume = false
+		e.curTags = save
+	}
+}
